@@ -660,10 +660,30 @@ class ScopeGen:
         return e
 
 
+# a second lexicon (one workspace in four): names that begin like one another, a value and a function called alike, a label
+# called like a variable, a custom type called like a type of the prelude and like its own constructor, module names that
+# are textual beginnings of each other
+LEXICON2 = dict(VAL_NAMES=["item", "items", "it", "x1"], FN_NAMES=["map", "map2", "item", "x1"], CONST_NAMES=["limit", "lim"],
+                TYPE_NAMES=["Result", "Res"], VARIANT_NAMES=["Ok2", "Res", "Result"], MOD_NAMES=["app", "app_core", "apps"],
+                LABELS=["item", "it"])
+
+
 def generate(seed, **kw):
     rng = random.Random(seed)
-    g = ScopeGen(rng, **kw)
-    ws = g.build()
+    lex = kw.pop("lexicon", None)
+    if lex is None:
+        lex = 2 if seed % 4 == 3 else 1
+    saved = {}
+    if lex == 2:
+        for k, v in LEXICON2.items():
+            saved[k] = list(globals()[k])
+            globals()[k][:] = v
+    try:
+        g = ScopeGen(rng, **kw)
+        ws = g.build()
+    finally:
+        for k, v in saved.items():
+            globals()[k][:] = v
     ws.files = [(m.path, m.text) for m in ws.modules]
     ws.files.append(("/w/p/gleam.toml", 'name = "p"\n'))
     return ws
